@@ -28,6 +28,10 @@ def connect(exe, seed, rng, consent, ncomp=1):
     cfg = sc.base_config(rng)
     cfg.update(ctrlA=1, ctrlB=0, naA=1, naB=1, ncomp=ncomp, loss=0, lat=rng.choice([1, 5, 30]), dup=0, anyorder=False,
                consent=consent, regA=rng.randint(0, 1), regB=rng.randint(0, 1))
+    # a quarter of the sessions use reliable agents (pseudo-TCP over the UDP pair): the send API then goes through the
+    # pseudo-TCP branch, which must be closed by lost consent like the datagram branch
+    if rng.random() < 0.25:
+        cfg.update(extra_opts=2)
     s = sc.start_session(exe, seed, cfg)
     return s, cfg
 
@@ -180,6 +184,10 @@ def probe_after_revoke(s, rng, rev="B"):
     stream's real credentials and sent from A's own candidate address."""
     bad = []
     oth = "A" if rev == "B" else "B"
+    if getattr(s, "cfg", {}).get("extra_opts", 0) & 2 and first_state(s, rev, "FAILED") is not None:
+        # reliable mode: once the revoker's pseudo-TCP connection has died (its peer stopped talking after the 403s) the
+        # component is FAILED and libnice detaches its sockets by design — a dead component answers nothing
+        return bad
     ca, cb = s.op(f"getcreds {oth} 1")[1].split(), s.op(f"getcreds {rev} 1")[1].split()
     if len(ca) < 7 or len(cb) < 7:
         return bad
@@ -258,7 +266,7 @@ def check_expiry(s, t0, dur, direction, kind):
             if tfail is not None:
                 bad.append(("early-failure", f"agent {ag} FAILED at t={tfail} although the blackout lasted only {dur} ms (last answer at {last})"))
             st = s.op(f"send {ag} 1 1 aabb")[1]
-            if "err" in st:
+            if "err" in st and "-27" not in st:        # (reliable mode may answer WOULD_BLOCK while pseudo-TCP recovers)
                 bad.append(("send-denied-early", f"send on {ag} failed after a {dur} ms blackout: {st}"))
             continue
         if cut:
